@@ -1,6 +1,10 @@
 # Text fields of MANIFEST.json per claimed property.
 NOT_BUILT_REASON = {}
 META = {
+ "C01": {
+  "technique": "explicit-state BFS over command sequences (full alphabet, depth 3; thorough depth 4), deduplicated on a map-based reference model; every (state, symbol) edge executed on a fresh real server through the RESP socket path and compared (reply, 75 read probes, full visible dump, in-package index/counter audit, internal-dump differential between paths to the same model state)",
+  "text": "All sequences of the 60-symbol keyspace alphabet up to the depth bound are covered exhaustively: every reachable model state and every transition out of it is replayed against the implementation, so composition effects the suite never tries (FSET after EXPIRE on a renamed key, XX on a missing collection, JSET on a geometry with a deadline ...) are decided, not sampled. traces_validated_against_impl equals the number of transitions.",
+  "note": "Trusted: the ~500-line reference model (maps + ordered JSON editor) whose reply shapes follow the command documentation; values outside the alphabet and sequences beyond the depth bound are not covered; the 'long random programs' half of the quantifier is sampling and is not done."},
  "C08": {
   "technique": "stateless model checking of the real netServe/writeAOF/flushAOF code: DFS over all schedules with <=2 (thorough 3) preemptions under a cooperative scheduler; oracle evaluated inside the server-side socket write",
   "text": "Every schedule (preemption bound 2, thorough 3) of 2-3 connections with plain, pipelined, read and script writes, with and without the background flusher, is executed on the real server; at each acknowledgement the log file as left by the completed file operations must contain the command. Exhaustive within the bound, so absence of the ack-before-log race is shown for these configurations, not sampled.",
